@@ -8,6 +8,15 @@ COMMON_ASSUME = [
 from extras import pod_features
 
 PROPS = {
+    "C02": {
+        "lean_module": "SplProofs.C02",
+        "streams": ["C02"],
+        "rule": "stream tlvq: zero/random strings of every length 0..13, and structured mutants of valid encodings over an adversarial tag palette (shared 7-byte prefix, leading/trailing zero "
+                "bytes, all-0xff): 1..11 trailing zero / non-zero bytes, zero tag followed by garbage, truncation at any position, length u32::MAX, length exactly-the-end / one past, truncated length "
+                "field, duplicated entries, single-byte corruption; each opened through the three views and queried by (tag, repetition 0..2) as bytes and as a fixed-size type; returned slice "
+                "addresses compared with an independent parser; non-trivial = accepted with >= 1 entry, or rejected after a well-formed first entry",
+        "assumptions": COMMON_ASSUME + ["typed reads use align-1 Pod types (the crate's convention)"],
+    },
     "C09": {
         "lean_module": "SplProofs.C09",
         "streams": ["C09"],
